@@ -31,6 +31,19 @@ Theorem C19_type : forall vals, sum_nat (map snd (type_buckets vals)) = List.len
 Proof. exact type_buckets_total. Qed.
 Print Assumptions C19_type.
 
+(* type: exactly one bucket per type name, holding the number of rows of that type *)
+Theorem C19_type_exact : forall vals, NoDup (map fst (type_buckets vals)) /\
+  forall t, lookup_s t (type_buckets vals) = count_type t vals.
+Proof. exact type_buckets_exact. Qed.
+Print Assumptions C19_type_exact.
+
+(* field: exactly one bucket per key, holding the number of times the key occurs among the keys of the rows whose
+   field is an object; rows whose field is missing, null, a scalar or a list contribute nothing *)
+Theorem C19_field : forall vals, NoDup (map fst (field_buckets vals)) /\
+  forall k, lookup_s k (field_buckets vals) = count_key k vals.
+Proof. exact field_buckets_exact. Qed.
+Print Assumptions C19_field.
+
 (* percentiles: tdigest is external; whatever quantile function is used, IF it is monotone in p and bounded
    by the extreme values, the emitted percentiles are non-decreasing in p and lie between min and max *)
 Section Percentile.
@@ -53,5 +66,7 @@ Print Assumptions C19_pct.
 Example C19_nonvacuous :
   histogram (5 # 1) [Some (JNum (1 # 1)); Some (JNum (7 # 1)); Some (JNum (-3 # 1)); None; Some (JStr "x"); Some (JNum (12 # 1))]
     = [((-1 # 1) * (5 # 1), 1%nat); (0 * (5 # 1), 1%nat); ((1 # 1) * (5 # 1), 1%nat); ((2 # 1) * (5 # 1), 1%nat)]%Q
-  /\ term_buckets [Some (JStr "a"); Some (JNum 2); Some (JStr "a"); None; Some (JList [])] = [(JStr "a", 2%nat); (JNum 2, 1%nat)].
+  /\ term_buckets [Some (JStr "a"); Some (JNum 2); Some (JStr "a"); None; Some (JList [])] = [(JStr "a", 2%nat); (JNum 2, 1%nat)]
+  /\ field_buckets [Some (JMap [("a"%string, JNull); ("b"%string, JNum 1)]); None; Some (JStr "a"); Some (JMap [("b"%string, JMap [("a"%string, JNull)])])]
+     = [("a"%string, 1%nat); ("b"%string, 2%nat)].
 Proof. vm_compute. auto. Qed.
